@@ -89,6 +89,7 @@ type Net struct {
 	Spin      bool
 	SpinKey   int16
 	SpinLimit int
+	spinUntil time.Time // while Spin: requests and dials fail until this virtual instant, then traffic flows again
 }
 
 // NewNet returns a fault net with no rules.
@@ -194,7 +195,7 @@ func (n *Net) Listen(network, address string) (net.Listener, error) {
 // DialContext is passed to kgo.Dialer.
 func (n *Net) DialContext(ctx context.Context, network, address string) (net.Conn, error) {
 	n.mu.Lock()
-	if n.blocked || n.Spin {
+	if n.blocked || (n.Spin && time.Now().Before(n.spinUntil)) {
 		n.mu.Unlock()
 		return nil, errors.New("faultnet: network unreachable")
 	}
@@ -244,16 +245,23 @@ func (n *Net) decide(ri *ReqInfo) Rule {
 		if lim == 0 {
 			lim = 20000
 		}
-		if n.sameAt > lim && !n.Spin {
+		if n.sameAt > lim {
+			if !n.Spin {
+				fmt.Fprintf(os.Stderr, "faultnet: SPIN watchdog fired: >%d requests at one virtual instant, last key %d\n", lim, ri.Key)
+			}
+			// The case is inconclusive from here on (Spin stays set). A one second outage breaks the
+			// loop: the client's error backoffs let virtual time advance, and whatever it was waiting
+			// for (a metadata refresh, typically) can happen; then traffic flows again so that the
+			// workload's own blocking calls can finish and the case can end.
 			n.Spin, n.SpinKey = true, ri.Key
-			fmt.Fprintf(os.Stderr, "faultnet: SPIN watchdog fired: >%d requests at one virtual instant, last key %d\n", lim, ri.Key)
+			n.spinUntil = now.Add(time.Second)
+			n.sameAt = 0
 		}
 	} else {
 		n.lastAt, n.sameAt = now, 0
 	}
-	if n.Spin {
+	if n.Spin && time.Now().Before(n.spinUntil) {
 		ri.Act = KillBefore
-		n.reqs = append(n.reqs, ri)
 		return Rule{Act: KillBefore}
 	}
 	cnt := n.counts[ri.Key]
